@@ -84,7 +84,7 @@ def run(seed, steps=45):
             keeper.__len__()       # flush: the serving thread keeps its last reply (and a temp proxy in it) until the next request
             gc.collect()
             want = model()
-            for attempt in range(20):
+            for attempt in range(200):      # up to 10 s: decrefs from an exiting child arrive asynchronously (loaded machines)
                 got = {k: v for k, v in info(server).items() if k not in fixed}
                 if got == want:
                     break
